@@ -12,7 +12,7 @@ SPLIT = [("C15", "r15_1"), ("C15", "r15_4"), ("C15", "r15_5")]
 CLEAN = [("C15", "r15_2"), ("C15", "r15_3")]
 # (the segment == behind the "identical segments" marker of PlanarCurve.__and__ is R07.11)
 INTER = [("C07", "r07_11"), ("C14", "r14_1"), ("C14", "r14_2"), ("C14", "r14_3"), ("C14", "r14_4"), ("C14", "r14_5"), ("C14", "r14_7"),
-         ("C14", "r14_9"), ("C14", "r14_10")]
+         ("C14", "r14_9"), ("C14", "r14_10"), ("C14", "r14_11")]
 POINT = [("C02", "r02_1"), ("C02", "r02_2"), ("C18", "r18_9"), ("C18", "r18_5"), ("C18", "r18_6"), ("C18", "r18_11"),
          ("C12", "r12_2"), ("C13", "r13_4"), ("C17", "r17_8"), ("C17", "r17_9"), ("C18", "r18_13"), ("C18", "r18_14")]
 ALGEBRA = [("C13", "r13_4"), ("C17", "r17_8")]           # the arithmetic of points and boxes everything rests on
@@ -45,7 +45,8 @@ BORROW = {
     "C08": [("C01", "r01_13")] + SPLIT + [("C15", "r15_2"), ("C18", "r18_10")],
     # history independence: operands are split (and their pieces cleaned) in place by the operators
     # ... and == must not see the subdivision they leave behind (R07.8: curves with redundant vertices)
-    "C10": [("C01", "r01_13"), ("C15", "r15_1"), ("C15", "r15_5"), ("C07", "r07_8")] + CLEAN + CHAIN,
+    # ... nor may an area depend on how a boundary was subdivided (exact quadrature: R04.4)
+    "C10": [("C01", "r01_13"), ("C15", "r15_1"), ("C15", "r15_5"), ("C07", "r07_8"), ("C04", "r04_4")] + CLEAN + CHAIN,
     "C14": [("C07", "r07_11"), ("C18", "r18_13")] + ALGEBRA,
     # the complement of a shape integrates the reversed boundary: reversal must be exact for every degree
     # ... and the exact rational moments need exact quadrature points (no intermediate point rounded to the cap)
@@ -54,7 +55,11 @@ BORROW = {
     # the containment of two simple shapes answers through an axis-aligned shortcut (disjoint boxes) or through the
     # general branch, depending on how the drawing is turned: the two must agree (rows with / without box overlap)
     # ... and T(A) is computed by the library's own move / rotate / scale
-    "C12": ALGEBRA + [("C03", "r03_1"), ("C09", "r09_1"), ("C09", "r09_2"), ("C09", "r09_3"), ("C09", "r09_4")],
+    # ... and an area that is exact is the same however the drawing is turned (node budget of the quadrature)
+    # a memo table shared by every curve is state too: a value stored before it is complete (or changed after it was
+    # stored) survives an interruption for the rest of the process (R10.2: memoised values are never mutated)
+    "C11": [("C10", "r10_2")],
+    "C12": ALGEBRA + [("C03", "r03_1"), ("C09", "r09_1"), ("C09", "r09_2"), ("C09", "r09_3"), ("C09", "r09_4"), ("C04", "r04_4")],
     # every constructor ends in the segments setter, which degree-reduces each segment (BezierCurve.clean)
     "C17": [("C13", "r13_4"), ("C18", "r18_13"), ("C15", "r15_2"), ("C15", "r15_3")],   # == of two descriptions unites pieces
     "C18": ALGEBRA,
@@ -62,7 +67,7 @@ BORROW = {
     # the segment they were computed on and cuts it at them
     # ... and the exact moments are the Green sums of R04.1 / R04.2
     "C13": [("C14", "r14_3"), ("C14", "r14_5"), ("C15", "r15_4"), ("C15", "r15_5"), ("C18", "r18_10"), ("C04", "r04_1"),
-            ("C04", "r04_2")],
+            ("C04", "r04_2"), ("C09", "r09_1"), ("C09", "r09_2"), ("C09", "r09_3")],      # ... exact transformed coordinates
     # factories build their curve through from_vertices / the segments setter
     # the pieces of a split are cut by the segment-level splitters
     "C15": [("C18", "r18_10")],
